@@ -16,7 +16,7 @@ from ..core import guarded
 ID = "C06"
 TECHNIQUE = ("Hypothesis-generated aggregates and baths against the analytic golden-rule rate, Boltzmann ratios from an "
              "independent diagonalisation, and structural identities of rate matrices and bath functions")
-LEVEL = ("For generated coupled aggregates of 2-4 sites with site-dependent overdamped Brownian baths (77-400 K): the "
+LEVEL = ("For generated coupled aggregates of 2-4 sites (the tensor also with a bath-memory cut-off time, which must equal the tensor on a time axis ending there; the Fourier-transformed correlation function also requested inside a units context) with site-dependent overdamped Brownian baths (77-400 K): the "
          "Redfield rate matrix has non-negative off-diagonals, zero column sums, an isolated ground state and ratios "
          "k_ab/k_ba = exp(-(E_a-E_b)/kT) with E from numpy.linalg.eigh of the oracle's own Hamiltonian; its downhill "
          "elements and the elements R[a,a,b,b] of the Redfield tensor read inside eigenbasis_of(H) equal "
